@@ -1480,3 +1480,166 @@ Proof.
   split; [reflexivity|]. split; [eexists; split; [vm_compute; reflexivity|eexists; split; vm_compute; reflexivity]|].
   split; [vm_compute; reflexivity|eexists; split; vm_compute; reflexivity].
 Qed.
+
+(** * The pair of the sync model: the parent stops listing the class *)
+
+Lemma amem_of_aget {V} k (v : V) l : aget k l = Some v -> amem k l = true.
+Proof. unfold amem. intros ->. reflexivity. Qed.
+
+Lemma holds_key_remove_inv dc k k' : holds_key (remove_key dc k') k = true -> holds_key dc k = true.
+Proof.
+  unfold holds_key, remove_key. cbn [d_issued d_susp dc_with_certs dc_with]. rewrite !amem_aremove.
+  intro H. apply orb_true_iff in H. apply orb_true_iff.
+  destruct H as [H|H]; apply andb_true_iff in H; destruct H as [_ H]; auto.
+Qed.
+
+(** unsuspension never makes the class hold a certificate for a key it held none for *)
+Lemma cl_unsuspend_holds ent now exp keys : forall dc dc' rm,
+  cl_unsuspend dc ent keys now exp = Some (dc', rm) -> forall k, holds_key dc' k = true -> holds_key dc k = true.
+Proof.
+  induction keys as [|k0 keys IH]; simpl; intros dc dc' rm H k Hk.
+  - inv H. exact Hk.
+  - destruct (aget k0 (d_susp dc)) as [s|] eqn:Es; [|eapply IH; eauto].
+    destruct ((now + 86400 <? i_exp s)%Z && subset (i_res s) ent).
+    + destruct (cl_certify dc (i_res s) k0 (i_limit s) exp) as [dc1|] eqn:Ec; [|discriminate].
+      specialize (IH _ _ _ H k Hk). unfold cl_certify in Ec. destruct (cur_res dc); [|discriminate].
+      destruct (issue_cert _ _ _); [|discriminate]. inv Ec.
+      unfold holds_key in *. cbn [d_issued d_susp dc_with_certs dc_with] in IH. rewrite amem_ainsert, amem_aremove in IH.
+      destruct (N.eqb_spec k0 k) as [<-|Hn].
+      * rewrite (amem_of_aget _ _ _ Es). apply orb_true_r.
+      * cbn [negb orb andb] in IH. exact IH.
+    + destruct (cl_unsuspend dc ent keys now exp) as [[dc1 rm1]|] eqn:Eu; [|discriminate]. inv H.
+      eapply IH; [exact Eu|]. eapply holds_key_remove_inv. exact Hk.
+Qed.
+
+(** marking keys revoked never puts a key in use *)
+Lemma mark_revoked_in_use rm : forall ch k c,
+  aget k (ch_used (fold_left (fun ch ki => if ch_is_issued ch ki then ch_set_used ch ki Revoked else ch) rm ch)) = Some (InUse c) ->
+  aget k (ch_used ch) = Some (InUse c).
+Proof.
+  induction rm as [|k0 rm IH]; simpl; intros ch k c H; [exact H|].
+  apply IH in H. destruct (ch_is_issued ch k0); [|exact H].
+  unfold ch_set_used in H. cbn [ch_used] in H. destruct (N.eq_dec k k0) as [->|Hn].
+  - rewrite aget_ainsert_eq in H. discriminate.
+  - rewrite aget_ainsert_neq in H by exact Hn. exact H.
+Qed.
+
+Lemma mark_revoked_map rm : forall ch,
+  ch_map (fold_left (fun ch ki => if ch_is_issued ch ki then ch_set_used ch ki Revoked else ch) rm ch) = ch_map ch.
+Proof. induction rm as [|k0 rm IH]; simpl; intro ch; [reflexivity|]. rewrite IH. destruct (ch_is_issued ch k0); reflexivity. Qed.
+
+Section Held.
+  Variables (cfg : tcfg) (pcn parent : N).
+
+  (** the parent counts the key as in use by this child in this class *)
+  Definition child_key (dch : dchild) (k : N) : Prop := aget k (ch_used (dc_ch dch)) = Some (InUse pcn).
+
+  (** every certificate the parent class holds for a key of this child is for a key the child's class has *)
+  Definition held_sub (s : sst) : Prop :=
+    forall pc k, st_pc s = Some pc -> child_key (st_ch s) k -> holds_key pc k = true ->
+                 exists x, st_xc s = Some x /\ ks_knows (d_keys x) k = true.
+
+  Lemma p_contact_holds inp pc dch ppc dch1 n :
+    p_contact cfg pcn inp pc dch = Some (ppc, dch1, n) ->
+    (forall dc1, ppc = Some dc1 -> exists dc, pc = Some dc /\ forall k, holds_key dc1 k = true -> holds_key dc k = true)
+    /\ (forall k, child_key dch1 k -> child_key dch k)
+    /\ ch_map (dc_ch dch1) = ch_map (dc_ch dch).
+  Proof.
+    unfold p_contact. destruct (ch_susp (dc_ch dch)).
+    - destruct pc as [dc|].
+      + destruct (cl_unsuspend dc _ _ _ _) as [[dc' rm]|] eqn:Eu; [|discriminate]. intro H. inv H. split; [|split].
+        * intros dc1 E. inv E. exists dc. split; [reflexivity|]. eapply cl_unsuspend_holds; eauto.
+        * intros k. unfold child_key. cbn [dc_ch ch_with ch_suspended ch_used]. apply mark_revoked_in_use.
+        * cbn [dc_ch ch_with ch_suspended ch_map]. apply mark_revoked_map.
+      + intro H. inv H. split; [intros ? E; discriminate|]. split; [intros k Hk; exact Hk|reflexivity].
+    - intro H. inv H. split; [|split; [auto|reflexivity]].
+      intros dc1 ->. exists dc1. auto.
+  Qed.
+
+  (** all requests of a given-up class, under a name the parent resolves to this class *)
+  Lemma p_revoke_all_clears crcn : forall keys pc dch pc' dch',
+    name_in_parent (dc_ch dch) crcn = pcn ->
+    p_revoke_all pcn pc dch (map (fun k => (crcn, k)) keys) = Some (pc', dch') ->
+    (forall dc', pc' = Some dc' ->
+       exists dc, pc = Some dc /\ (forall k, In k keys -> holds_key dc' k = false)
+                  /\ (forall k, holds_key dc' k = true -> holds_key dc k = true))
+    /\ (forall k, child_key dch' k -> child_key dch k).
+  Proof.
+    induction keys as [|k0 keys IH]; intros pc dch pc' dch' Hn H.
+    - inv H. split; [|auto]. intros dc' ->. exists dc'. repeat split; auto. intros k [].
+    - cbn [map p_revoke_all] in H. unfold p_revoke in H. rewrite Hn, N.eqb_refl in H. cbn [negb] in H.
+      destruct pc as [dc|].
+      + destruct (ch_is_issued (dc_ch dch) k0); [|discriminate]. cbn [negb] in H.
+        apply IH in H; [|exact Hn]. destruct H as [Hpc Hch]. split.
+        * intros dc' E. destruct (Hpc dc' E) as [dc1 [E1 [Hk Hp]]]. inv E1. exists dc. split; [reflexivity|]. split.
+          -- intros k [<-|Hin]; [|apply Hk, Hin].
+             destruct (holds_key dc' k0) eqn:Eh; [|reflexivity]. apply Hp in Eh. pose proof (holds_key_removed dc k0) as X. unfold remove_key in X. rewrite X in Eh. discriminate.
+          -- intros k Hh. apply Hp in Hh. exact (holds_key_remove_inv dc k k0 Hh).
+        * intros k Hk. apply Hch in Hk. unfold child_key in *. cbn [dc_ch ch_with ch_set_used ch_used] in Hk.
+          destruct (N.eq_dec k k0) as [->|Hne]; [rewrite aget_ainsert_eq in Hk; discriminate|].
+          rewrite aget_ainsert_neq in Hk by exact Hne. exact Hk.
+      + apply IH in H; [|exact Hn]. destruct H as [Hpc Hch]. split; [|exact Hch].
+        intros dc' E. destruct (Hpc dc' E) as [dc1 [E1 _]]. discriminate.
+  Qed.
+
+  (** pending keys always carry their request (they are created with it and lose it only by being certified) *)
+  Definition pending_requested (x : dclass) : Prop :=
+    match d_keys x with KPending p | KRollPending p _ => p_req p = true | _ => True end.
+
+  Lemma quiet_class_certified x k :
+    pending_requested x -> has_pending_requests (Some x) = false -> ks_knows (d_keys x) k = true -> In k (ks_certified (d_keys x)).
+  Proof.
+    unfold pending_requested, has_pending_requests. destruct (d_keys x) as [p|c|p c|n c|c o]; cbn; intros Hp Hq Hk.
+    - rewrite Hp in Hq. discriminate.
+    - apply N.eqb_eq in Hk. auto.
+    - rewrite Hp in Hq. discriminate.
+    - apply orb_true_iff in Hk. destruct Hk as [Hk|Hk]; apply N.eqb_eq in Hk; auto.
+    - destruct (k_req c), (k_req o); discriminate.
+  Qed.
+
+  (** unlisted_class_leaves_nothing: the parent no longer lists the class for the child (nothing of the
+      entitlement is left in it), the child - which has no request open - synchronises, gives the class up and
+      sends its revocation requests; once they are performed the parent class holds no certificate, published or
+      suspended, for any key it counts as in use by this child. *)
+  Theorem unlisted_class_leaves_nothing inp s x pc' dch' :
+    st_xc s = Some x -> pending_requested x -> has_pending_requests (st_xc s) = false ->
+    name_in_parent (dc_ch (st_ch s)) (d_prcn x) = pcn ->
+    held_sub s ->
+    st_xc (sr_st (sync_step cfg pcn parent inp s)) = None ->
+    p_revoke_all pcn (st_pc (sr_st (sync_step cfg pcn parent inp s))) (st_ch (sr_st (sync_step cfg pcn parent inp s)))
+                 (class_revocations x) = Some (pc', dch') ->
+    forall pc k, pc' = Some pc -> child_key dch' k -> holds_key pc k = false.
+  Proof.
+    intros Hx Hpr Hq Hn Hs. unfold sync_step. rewrite Hq.
+    destruct (p_contact cfg pcn inp (st_pc s) (st_ch s)) as [[[ppc dch1] n1]|] eqn:Ec.
+    - destruct (x_entitlements inp (st_xc s) parent _) as [xc' n2] eqn:Ee. cbn [sr_st st_xc st_pc st_ch].
+      intros -> Hr pc k -> Hk.
+      destruct (p_contact_holds _ _ _ _ _ _ Ec) as [Hpc [Hch Hm]].
+      unfold class_revocations in Hr. apply p_revoke_all_clears in Hr; [|unfold name_in_parent in *; rewrite Hm; exact Hn].
+      destruct Hr as [Hpc' Hch']. destruct (Hpc' pc eq_refl) as [dc1 [E1 [Hclr Hsub]]].
+      destruct (Hpc dc1 E1) as [dc0 [E0 Hsub0]].
+      destruct (holds_key pc k) eqn:Eh; [|reflexivity].
+      destruct (Hs dc0 k E0 (Hch k (Hch' k Hk)) (Hsub0 k (Hsub k Eh))) as [x0 [Ex0 Hkn]].
+      rewrite Hx in Ex0. inv Ex0. rewrite Hx in Hq.
+      rewrite (Hclr k (quiet_class_certified x0 k Hpr Hq Hkn)) in Eh. discriminate.
+    - cbn [sr_st]. rewrite Hx. discriminate.
+  Qed.
+End Held.
+
+(** non-vacuity: the child (key 7, class called 0 by both) is entitled to atoms 4,5; the parent's class holds
+    atoms 0-3 only after the entitlement moved: nothing is listed, the class goes and the certificate with it *)
+Definition ul_parent : dclass := mkDC 1 0 (KActive (mkCK 1 (mkCert 1 0xF000F 0) false)) [] [(7, mkIC 0x30003 no_limit 31449600)] [] [].
+Definition ul_state : sst := mkSst (Some ul_parent) (mkDCh 0x300030 (mkChild false [(7, InUse 0)] [])) (Some ex_child) [].
+
+Example unlisted_class_leaves_nothing_nonvacuous :
+  held_sub 0 ul_state /\ pending_requested ex_child /\ has_pending_requests (st_xc ul_state) = false
+  /\ st_xc (sr_st (sync_step ex_cfg 0 2 (mkSin 100 50) ul_state)) = None
+  /\ p_revoke_all 0 (st_pc (sr_st (sync_step ex_cfg 0 2 (mkSin 100 50) ul_state))) (st_ch (sr_st (sync_step ex_cfg 0 2 (mkSin 100 50) ul_state)))
+                  (class_revocations ex_child)
+     = Some (Some (mkDC 1 0 (KActive (mkCK 1 (mkCert 1 0xF000F 0) false)) [] [] [] []), mkDCh 0x300030 (mkChild false [(7, Revoked)] [])).
+Proof.
+  split.
+  - intros pc k E Hk Hh. inv E. exists ex_child. split; [reflexivity|].
+    unfold child_key in Hk. cbn in Hk. destruct (7 =? k) eqn:E7; [|discriminate]. apply N.eqb_eq in E7. subst k. reflexivity.
+  - split; [exact I|]. vm_compute. repeat split; reflexivity.
+Qed.
